@@ -71,6 +71,11 @@ def gen(seed, tier):
     extras = {"logging": fmt == "yaml" and rng.random() < 0.3, "simsection": fmt == "yaml" and rng.random() < 0.3}
     t_sig = rng.choice([1.5, 2.0, 3.0, 4.5, 7.0])
     dscript = [["sleep", t_sig], ["sigint"]]
+    if rng.random() < 0.2:
+        # "all signal times after start": also right after the runtime reports running, i.e. possibly while the
+        # configuration is still being loaded or its services are being adopted
+        t_sig = rng.choice([0.0, 0.0, 0.002, 0.05, 0.3])
+        dscript = [["wait-running"], ["sleep", t_sig], ["sigint"]]
     gcs = []
     if rng.random() < 0.6:
         gcs = [{"id": "g0", "script": [["wait-marker", "constructed"]] + [x for _ in range(rng.randint(1, 4)) for x in (["gc"], ["sleep", rng.choice([0.0, 0.05, 0.3, 1.0])])]}]
@@ -362,8 +367,19 @@ def check(h, reason):
         expect_fail = status != 0 or bool(errors)
         if not expect_fail:
             expect_fail = False
+    first_err = next((e for e in ev if e["kind"] == "error-log" and e["logger"].startswith("cobald.runtime")), None)
+    if expect_fail and sig is not None and sig["seq"] < (first_err["seq"] if first_err else 10**12) and sig["seq"] < ended["seq"]:
+        # the interrupt arrived before the failure had been noticed by the runtime: two triggers at once,
+        # either outcome (graceful exit 0, or the failure's non-zero status) is legitimate
+        S.probe("sigint-before-failure-reported")
+        return v, shape, True
+    interrupted_too = sig is not None and sig["seq"] < ended["seq"]
     if expect_fail:
-        if status == 0:
+        if status == 0 and interrupted_too:
+            # failure and interrupt both arrived before the daemon was down: "only a KeyboardInterrupt ends the
+            # run without an error" - the graceful exit status is one of the two legitimate outcomes (as in C01)
+            S.probe("failure-masked-by-sigint")
+        elif status == 0:
             V("C13/exit-zero-on-failure/%s/%s" % (fkind or "truncated", what), "fault %s/%s but the daemon exited with status 0" % (fkind, what))
         logging_cut = truncated and sc["extras"].get("logging")  # a cut logging section may legitimately disable the existing loggers (dictConfig default)
         if not errors and not logging_cut:
@@ -378,11 +394,14 @@ def check(h, reason):
     if sig is None or ended["t"] < sig["t"] - 1e-9:
         V("C13/exited-early", "valid configuration: the daemon exited (status %r) at t=%.2f before anyone stopped it" % (status, ended["t"]))
         return v, shape, True
+    early_stop = sig is not None and sig["t"] < 1.0  # the load itself may have been interrupted
     if not truncated:
         for e in elems:
             if not e["sim"]:
                 continue
             c = constructed.get(e["name"], [])
+            if early_stop and len(c) == 0:
+                continue
             if len(c) != 1:
                 V("C13/construct-count/%s" % e["cls"], "element %s (%s) was constructed %d times" % (e["name"], e["cls"], len(c)))
                 continue
@@ -394,6 +413,9 @@ def check(h, reason):
         if truncated and e["name"] not in constructed:
             continue
         rs = run_started.get(e["name"], [])
+        con = constructed.get(e["name"], [])
+        if len(rs) == 0 and (not con or sig["t"] - con[0]["t"] < 1.3):
+            continue  # stopped before the accept loop's next poll (at most accept_delay = 1 s later) could see it
         if len(rs) == 0:
             V("C13/service-never-started/%s" % e["flavour"], "configured %s service %s (%s) was constructed but its run() never started although the daemon ran for %.2fs" % (e["flavour"], e["name"], e["cls"], sig["t"]))
             continue
